@@ -202,7 +202,8 @@ HANDMADE = [
     # (filter, projection): shapes behind the findings and the pk-only optimisation
     (('or', ('cmp', 'is', ('attr', 'group.id'), ('none',)), ('cmp', '>', ('attr', 'group.number'), ('int', 1))), None),
     (('or', ('cmp', '>', ('attr', 'group.number'), ('int', 1)), ('cmp', 'is', ('attr', 'group.id'), ('none',))), None),
-    (('not', ('attr', 'group.number')), None),
+    (('not', ('attr', 'group.number')), None), (('not', ('attr', 'group.id')), None), (('not', ('attr', 'group.dept.id')), ('attr', 'group.number')),
+    (('or', ('attr', 'group.id'), ('cmp', '>', ('attr', 'a'), ('int', 0))), None),
     (('cmp', '==', ('attr', 'group.dept.id'), ('int', 1)), ('attr', 'group.id')),
     (('cmp', '==', ('attr', 'group.dept.name'), ('str', 'ab')), ('attr', 'group.dept.id')),
     (None, ('attr', 'group.dept.code')),
@@ -271,7 +272,7 @@ def join_cases(ctx, queries, real):
     return exprs, meta, dis, nontriv, dist
 
 
-REQUIRED_PATH_ATTRS = ('group.number', 'group.dept.name', 'group.dept.open')
+REQUIRED_PATH_ATTRS = ('group.number', 'group.dept.name', 'group.dept.open', 'group.id', 'group.dept.id')
 
 
 def classify(left, filt, proj, params, graph, p, mode):
@@ -282,7 +283,9 @@ def classify(left, filt, proj, params, graph, p, mode):
     used = set()
     for x in (filt, proj):
         if x is not None: used |= L.attrs_of(x)
-    if left and any(a in REQUIRED_PATH_ATTRS and row[a] is None for a in used): return 'left-join-required-attribute-through-none-reference'
+    if any(a in REQUIRED_PATH_ATTRS and row[a] is None for a in used):
+        # select(): only the primary key paths can be None on a row the comma join keeps (no table is joined for them)
+        return 'left-join-required-attribute-through-none-reference' if left else 'pk-of-none-reference-is-marked-not-nullable'
     e = filt if mode == 'filter' else proj
     return H.classify(e, row, params, mode)
 
